@@ -75,6 +75,31 @@ pub fn run(out: &mut Out, rng: &mut Rng, thorough: bool) {
 				if !clean.ok() {
 					continue;
 				}
+				// --- one transient `Interrupted` from the reader at offset k: the
+				// translation may fail, or retry and give the fault-free output;
+				// it must never succeed with something else (documents dropped).
+				for k in 0..=input.len() {
+					let mut w = FaultWriter::new(None, vec![]);
+					let r = catch(|| {
+						let reader = crate::util::InterruptOnce { inner: SchedReader::new(input, vec![], true, None), at: k, fired: false };
+						xt::translate_reader(reader, from.map(Fmt::xt), to.xt(), &mut w)
+					});
+					out.eval("transient_interrupt", &format!("{}{:?}{}{k}", hex(input), from.map(Fmt::name), to.name()), true);
+					let problem = match &r {
+						Err(p) => Some(format!("panicked: {p}")),
+						Ok(Ok(())) if w.accepted != clean.output => {
+							Some(format!("returned success with output {} instead of {}", hex(&w.accepted), hex(&clean.output)))
+						}
+						_ => None,
+					};
+					if let Some(p) = problem {
+						out.fail(
+							"transient_interrupt",
+							"",
+							format!("input {} from={} to={} reader interrupted once at offset {k}: {p}", hex(input), from.map(Fmt::name).unwrap_or("detect"), to.name()),
+						);
+					}
+				}
 				// --- the writer starts failing after accepting k bytes
 				for k in 0..clean.output.len() {
 					for slice in [false, true] {
